@@ -7,6 +7,7 @@ import (
 	"os"
 	"path/filepath"
 	"strings"
+	"sync"
 	"time"
 
 	"hpverif/internal/core"
@@ -33,7 +34,7 @@ type c05stack struct {
 var c05stacks = []c05stack{
 	{"mem", "", false}, {"mem-deep", "d", false},
 	{"mount0", "", false}, {"mount-cross", "", false}, {"mount1", "m", false}, {"mount1-deep", "m/d", false}, {"mount2", "m/n", false}, {"mount-nested", "m/n", false}, {"mount-nested-inner", "m", false},
-	{"sub(mem)", "", false}, {"sub(mem)-deep", "d", false}, {"sub(mount1)", "", false}, {"sub(mount-above)", "m", false}, {"sub(sub(mem))", "", false},
+	{"sub-dot(mem)", "", false}, {"sub-dot(mount1)", "m", false}, {"mount-lookalike", "ab/a", false}, {"sub(mem)", "", false}, {"sub(mem)-deep", "d", false}, {"sub(mount1)", "", false}, {"sub(mount-above)", "m", false}, {"sub(sub(mem))", "", false},
 	{"os1", "", false}, {"os1-deep", "d", false}, {"os2", "", false}, {"os3", "", false},
 	{"cache", "", true}, {"cache-deep", "d", true}, {"tar", "", true}, {"tar-deep", "d", true},
 }
@@ -82,6 +83,33 @@ func c05build(env *core.Env, st c05stack) (*c05built, error) {
 			return nil, err
 		}
 		if err := mf.AddMount("m", inner); err != nil {
+			return nil, err
+		}
+		b.fs = mf
+	case "sub-dot(mem)":
+		v, err := hackpadfs.Sub(mk(), ".")
+		if err != nil {
+			return nil, err
+		}
+		b.fs = v
+	case "sub-dot(mount1)":
+		root := mk()
+		mf, _ := mount.NewFS(root)
+		_ = hackpadfs.Mkdir(root, "m", 0o755)
+		if err := mf.AddMount("m", mk()); err != nil {
+			return nil, err
+		}
+		v, err := hackpadfs.Sub(mf, ".")
+		if err != nil {
+			return nil, err
+		}
+		b.fs = v
+	case "mount-lookalike":
+		// a two-element mount point whose elements also occur as names below it (ab/a/a, ab/a/ab ...)
+		root := mk()
+		mf, _ := mount.NewFS(root)
+		_ = hackpadfs.MkdirAll(root, "ab/a", 0o755)
+		if err := mf.AddMount("ab/a", mk()); err != nil {
 			return nil, err
 		}
 		b.fs = mf
@@ -241,12 +269,42 @@ type c05case struct {
 
 var c05sentinels = map[string]bool{"ErrNotExist": true, "ErrExist": true, "ErrIsDir": true, "ErrNotDir": true, "ErrNotEmpty": true, "ErrInvalid": true, "ErrClosed": true}
 
+// c05extra: failing calls the C01 matrix leaves out because their success would remove or rename the root -
+// here only their failure is of interest (the top of the logical namespace as a Rename/Symlink destination or source).
+var c05extraOnce sync.Once
+var c05extra []c01case
+
+func c05extraBuild() {
+	c05extraOnce.Do(func() {
+		file, _ := fsx.SituationSetup("file", "a")
+		dir, _ := fsx.SituationSetup("dir", "a")
+		add := func(name string, setup []fsx.Step, op fsx.Step) {
+			c05extra = append(c05extra, c01case{Name: name, Hist: append(append([]fsx.Step(nil), setup...), op), NSetup: len(setup)})
+		}
+		add("Rename/file->root", file, fsx.Step{K: "Rename", P: "a", P2: "."})
+		add("Rename/dir->root", dir, fsx.Step{K: "Rename", P: "a", P2: "."})
+		add("Rename/missing->root", nil, fsx.Step{K: "Rename", P: "c", P2: "."})
+		add("Rename/root->child", dir, fsx.Step{K: "Rename", P: ".", P2: "a/c"})
+		add("Rename/root->root", nil, fsx.Step{K: "Rename", P: ".", P2: "."})
+		add("Symlink/file->root", file, fsx.Step{K: "Symlink", P: "a", P2: "."})
+		add("Mkdir/root", nil, fsx.Step{K: "Mkdir", P: ".", Perm: 0o755})
+		// (Remove of the non-empty top is left out: rmdir(".") is EINVAL, rmdir of its path ENOTEMPTY - no single expectation)
+		add("OpenClose/root-create-excl", nil, fsx.Step{K: "OpenClose", P: ".", Flag: os.O_RDWR | os.O_CREATE | os.O_EXCL, Perm: 0o644})
+		add("WriteFullFile/root", nil, fsx.Step{K: "WriteFullFile", P: ".", Data: "x", Perm: 0o644})
+		add("ReadFile/root", nil, fsx.Step{K: "ReadFile", P: "."})
+	})
+}
+
 func c05cases(env *core.Env) []c05case {
 	c01build()
+	c05extraBuild()
 	var cs []c05case
 	for si := range c05stacks {
 		for ci := range c01matrix {
 			cs = append(cs, c05case{si, ci})
+		}
+		for ci := range c05extra {
+			cs = append(cs, c05case{si, len(c01matrix) + ci})
 		}
 	}
 	// failing steps harvested from random histories (writable stacks)
@@ -286,7 +344,9 @@ func c05run(env *core.Env, idx int) core.CaseResult {
 	stack := c05stacks[cc.Stack]
 	var cs c01case
 	var gen *fsx.Gen
-	if cc.Case >= 0 {
+	if cc.Case >= len(c01matrix) {
+		cs = c05extra[cc.Case-len(c01matrix)]
+	} else if cc.Case >= 0 {
 		cs = c01matrix[cc.Case]
 	} else {
 		gen = fsx.NewGen(env.Seed*9_000_011+int64(idx), fmt.Sprintf("e%d", idx))
@@ -511,9 +571,9 @@ func c05stackKind(name string) string {
 		return "kv"
 	case strings.HasPrefix(name, "mount"):
 		return "mount"
-	case strings.HasPrefix(name, "sub(mount"):
+	case strings.HasPrefix(name, "sub(mount"), strings.HasPrefix(name, "sub-dot(mount"):
 		return "sub-mount"
-	case strings.HasPrefix(name, "sub("):
+	case strings.HasPrefix(name, "sub("), strings.HasPrefix(name, "sub-dot("):
 		return "sub"
 	case strings.HasPrefix(name, "os"):
 		return "os"
